@@ -164,6 +164,8 @@ pub struct EhFrame {
     pub bytes: Vec<u8>,
     /// (fde start svma, offset of the FDE in the section), in section order.
     pub fde_offsets: Vec<(u64, u64)>,
+    /// (start, offset) of the FDEs that cover something: what a linker's search table lists.
+    pub table_entries: Vec<(u64, u64)>,
 }
 
 fn enc_byte(enc: PtrEnc) -> u8 {
@@ -187,6 +189,7 @@ pub fn write_eh_frame(
 ) -> EhFrame {
     let mut out: Vec<u8> = Vec::new();
     let mut fde_offsets = Vec::new();
+    let mut table_entries = Vec::new();
     // `n_cies` encodes the layout too: values above 3 mean "all CIEs first, then the FDEs".
     let cies_first = n_cies > 3;
     let n_cies = (if cies_first { n_cies - 2 } else { n_cies }).max(1) as usize;
@@ -203,12 +206,19 @@ pub fn write_eh_frame(
         })
         .collect();
     let mut cie_off: Vec<Option<usize>> = vec![None; n_cies];
+    // some CIEs carry the signal-frame augmentation 'S' (as the CIE of a sigreturn trampoline
+    // does); it has no augmentation data and must not change how a row is evaluated
+    let n_fdes = fdes.len();
     let emit_cie = |out: &mut Vec<u8>, enc: PtrEnc| -> usize {
         let start = out.len();
         out.extend_from_slice(&[0, 0, 0, 0]); // length, patched below
         out.extend_from_slice(&0u32.to_le_bytes()); // CIE id
         out.push(1); // version
-        out.extend_from_slice(b"zR\0");
+        if (n_fdes + start / 8) % 3 == 0 {
+            out.extend_from_slice(b"zRS\0");
+        } else {
+            out.extend_from_slice(b"zR\0");
+        }
         uleb(out, 1); // code alignment
         sleb(out, 1); // data alignment
         out.push(DReg::Ra.num(arch) as u8); // return address register
@@ -232,6 +242,9 @@ pub fn write_eh_frame(
         }
         let start = out.len();
         fde_offsets.push((fde.start, start as u64));
+        if fde.len > 0 {
+            table_entries.push((fde.start, start as u64));
+        }
         out.extend_from_slice(&[0, 0, 0, 0]);
         let cie_ptr = (out.len() - cie_off[ci].unwrap()) as u32;
         out.extend_from_slice(&cie_ptr.to_le_bytes());
@@ -264,6 +277,7 @@ pub fn write_eh_frame(
     EhFrame {
         bytes: out,
         fde_offsets,
+        table_entries,
     }
 }
 
@@ -286,7 +300,9 @@ pub fn enc_fits(enc: PtrEnc, fdes: &[FdeSpec], section_svma: u64, text_svma: u64
 pub fn write_eh_frame_hdr(eh: &EhFrame, hdr_svma: u64, eh_frame_svma: u64, abs: bool) -> Vec<u8> {
     let mut out = Vec::new();
     out.push(1);
-    let mut table: Vec<(u64, u64)> = eh.fde_offsets.clone();
+    // FDEs of length zero (leftovers that cover no code) are not listed: the table is a
+    // search table over the functions that exist, with distinct keys
+    let mut table: Vec<(u64, u64)> = eh.table_entries.clone();
     table.sort_by_key(|e| e.0);
     if abs {
         out.push(0x04); // eh_frame_ptr: absolute udata8
